@@ -1112,8 +1112,9 @@ class Interp:
                 if o.elem is not None:
                     return o.elem
                 if o.shared():
-                    if o.origin[1] in self.cache_model:
-                        v = self.materialize(self.cache_model[o.origin[1]], o.origin[1])
+                    mk = (o.origin[1], vkey(idx))
+                    if mk in self.cache_model:
+                        v = self.materialize(self.cache_model[mk], o.origin[1])
                         o.meta.setdefault("stores", []).append((idx, v, "earlier call (modelled from the miss path)"))
                         return v
                     raise Unsupported(f"load from shared dictionary {o.origin[1]} whose contents are not modelled at {pyfacts.where(fr.func, e)}")
@@ -1311,8 +1312,8 @@ def run_entry(prog, func, make_args, inline_all=False):
             v = it.call_function(func, args, dict(kwargs))
             results.append(PathResult("return", v, it))
             for ev in it.events:
-                if ev[0] == "store-shared" and ev[1] not in cache_model:
-                    cache_model[ev[1]] = results[-1].describe(ev[3], 1)
+                if ev[0] == "store-shared" and (ev[1], vkey(ev[2])) not in cache_model:
+                    cache_model[(ev[1], vkey(ev[2]))] = results[-1].describe(ev[3], 1)
         except _Raise as r:
             results.append(PathResult("raise", None, it, what=r.what))
         except (_MaybeExit, _Break, _Continue):
